@@ -11,8 +11,8 @@ ExportInv ==
 Ops_All == {"defer", "lazy", "idle", "after", "acreate", "call", "pcall", "callown", "stop", "fail",
             "owndrop", "ownclone", "keepown", "kill", "mkret", "ret", "retdrop", "keepret", "zombie",
             "run", "dropstakker"}
-Ops_Q == {"defer", "lazy", "idle", "after", "run", "dropstakker"}
-Ops_QBody == {"defer", "lazy", "idle", "after"}
+Ops_Q == {"defer", "lazy", "idle", "after", "run", "dropstakker", "deferod", "lazyod"}
+Ops_QBody == {"defer", "lazy", "idle", "after", "deferod"}
 Ops_ATop == {"acreate", "call", "pcall", "owndrop", "kill", "run", "zombie", "dropstakker"}
 Ops_ABody == {"defer", "call", "owndrop"}
 Ops_ATopAll == {"acreate", "call", "pcall", "callown", "owndrop", "ownclone", "kill", "run", "zombie", "dropstakker",
